@@ -89,6 +89,7 @@ type QueryDef struct {
 	NumSlots  int
 	AllFields bool
 	Having    *HavingDef // only with exactly one bare select item
+	Cond      *CondDef   // where-condition (the where stream: real storage nodes only)
 
 	ftypes map[string]field.Type // field name -> type (for the canonicalisation of order-by answers)
 }
@@ -160,6 +161,9 @@ func (q *QueryDef) statement(w *World) *stmt.Query {
 	}
 	for _, g := range q.GroupBy {
 		s.GroupBy = append(s.GroupBy, w.TagKeys[g])
+	}
+	if q.Cond != nil {
+		s.Condition = q.Cond.expr()
 	}
 	if q.Having != nil {
 		op := map[int]stmt.BinaryOP{1: stmt.GREATER, 2: stmt.GREATEREQUAL, 3: stmt.LESS, 4: stmt.LESSEQUAL}[q.Having.Op]
